@@ -44,8 +44,9 @@ def main():
     if keep:
         os.makedirs(keep, exist_ok=True)
         for f in ('patch.diff', 'demo.py'):
-            shutil.copy(os.path.join(d, f), os.path.join(keep, f))
-        meta.update({'confirmed': {k: res.get(k) for k in ('demo_pristine_exit', 'demo_patched_exit', 'patch_applies', 'tests', 'tests_pass')},
+            if os.path.abspath(d) != os.path.abspath(keep): shutil.copy(os.path.join(d, f), os.path.join(keep, f))
+        old = meta.get('confirmed', {})
+        meta.update({'confirmed': dict(old, **{k: res.get(k) for k in ('demo_pristine_exit', 'demo_patched_exit', 'patch_applies', 'tests', 'tests_pass') if k in res}),
                      'check': {k: res.get(k) for k in ('check_exit', 'detected', 'violation_lines', 'first_violation', 'broken_obligations', 'check_wall_s')},
                      'what_was_run': 'tools/seedcheck.py: demo on pristine and patched scratch worktree, listed tests on the patched tree, ODAK_REPO=<patched worktree> ./check %s --tier %s' % (prop, tier)})
         json.dump(meta, open(os.path.join(keep, 'meta.json'), 'w'), indent=1)
